@@ -1375,10 +1375,14 @@ class PDFPageInterpreter:
             else:
                 resources = self.resources.copy()
             self.device.begin_figure(xobjid, bbox, matrix)
+            # ISO 32000-1 8.10.1: a form XObject is painted as `q Matrix cm ... Q`,
+            # i.e. it starts from the graphics state (text state, colours, colour
+            # spaces, ...) in effect when Do is executed, not from a fresh one.
             interpreter.render_contents(
                 resources,
                 [xobj],
                 ctm=mult_matrix(matrix, self.ctm),
+                state=(self.textstate.copy(), self.graphicstate.copy()),
             )
             self.device.end_figure(xobjid)
             # the form's interpreter shares the device: give it the caller's CTM back
@@ -1411,10 +1415,14 @@ class PDFPageInterpreter:
         resources: Dict[object, object],
         streams: Sequence[object],
         ctm: Matrix = MATRIX_IDENTITY,
+        state: Optional[Tuple[PDFTextState, PDFGraphicState]] = None,
     ) -> None:
         """Render the content streams.
 
         This method may be called recursively.
+
+        :param state: text state and graphics state to start from (a form XObject
+            inherits them from its caller); a fresh state when omitted.
         """
         log.debug(
             "render_contents: resources=%r, streams=%r, ctm=%r",
@@ -1424,6 +1432,8 @@ class PDFPageInterpreter:
         )
         self.init_resources(resources)
         self.init_state(ctm)
+        if state is not None:
+            (self.textstate, self.graphicstate) = state
         self.execute(list_value(streams))
 
     def execute(self, streams: Sequence[object]) -> None:
